@@ -2386,7 +2386,7 @@ namespace xtl
                                                   xbasic_fixed_string<CT, N, ST, EP, TR>& str)
     {
         // Not optimal
-        std::string tmp;
+        std::basic_string<CT, TR> tmp;
         is >> tmp;
         str = tmp.c_str();
         return is;
@@ -2397,7 +2397,7 @@ namespace xtl
                                                xbasic_fixed_string<CT, N, ST, EP, TR>& str,
                                                CT delim)
     {
-        std::string tmp;
+        std::basic_string<CT, TR> tmp;
         auto& ret = std::getline(input, tmp, delim);
         str = tmp;
         return ret;
@@ -2408,7 +2408,7 @@ namespace xtl
                                                xbasic_fixed_string<CT, N, ST, EP, TR>& str,
                                                CT delim)
     {
-        std::string tmp;
+        std::basic_string<CT, TR> tmp;
         auto& ret = std::getline(std::move(input), tmp, delim);
         str = tmp;
         return ret;
@@ -2418,7 +2418,7 @@ namespace xtl
     inline std::basic_istream<CT, TR>& getline(std::basic_istream<CT, TR>& input,
                                                xbasic_fixed_string<CT, N, ST, EP, TR>& str)
     {
-        std::string tmp;
+        std::basic_string<CT, TR> tmp;
         auto& ret = std::getline(input, tmp);
         str = tmp;
         return ret;
@@ -2428,7 +2428,7 @@ namespace xtl
     inline std::basic_istream<CT, TR>& getline(std::basic_istream<CT, TR>&& input,
                                                xbasic_fixed_string<CT, N, ST, EP, TR>& str)
     {
-        std::string tmp;
+        std::basic_string<CT, TR> tmp;
         auto& ret = std::getline(std::move(input), tmp);
         str = tmp;
         return ret;
